@@ -254,4 +254,287 @@ theorem verifyNF_verified_iff (T : Tables) (C : Codec (Sig κ)) (own : κ) (msg 
       (Sig.verify_iff _ _ _ _).mpr ⟨k, h5, rfl⟩
     rw [if_pos this]
 
+/-! ### the signer, evaluated -/
+
+/-- the parameters a signing run emits, in order -/
+def emitted (typ v : Str) (rs : Option Str) (alg sigText : Str) : Dict :=
+  (typ, v) :: ((match rs with
+    | some r => [(kRelayState, r)]
+    | none => []) ++ [(kSigAlg, alg), (kSignature, sigText)])
+
+theorem emitted_get_typ (typ v : Str) (rs : Option Str) (alg st : Str) :
+    (emitted typ v rs alg st).get typ = some v := by
+  simp [emitted, Dict.get]
+
+theorem emitted_get_relay {typ : Str} (h : typ = kSAMLRequest ∨ typ = kSAMLResponse) (v : Str)
+    (rs : Option Str) (alg st : Str) : (emitted typ v rs alg st).get kRelayState = rs := by
+  have h1 : ¬ typ = kRelayState := by rcases h with h | h <;> subst h <;> decide
+  cases rs <;> simp [emitted, Dict.get, h1, kRelay_ne_kSigAlg.symm, kRelay_ne_kSig.symm]
+
+theorem emitted_get_sigalg {typ : Str} (h : typ = kSAMLRequest ∨ typ = kSAMLResponse) (v : Str)
+    (rs : Option Str) (alg st : Str) : (emitted typ v rs alg st).get kSigAlg = some alg := by
+  have h1 : ¬ typ = kSigAlg := by rcases h with h | h <;> subst h <;> decide
+  cases rs <;> simp [emitted, Dict.get, h1, kRelay_ne_kSigAlg]
+
+theorem emitted_get_signature {typ : Str} (h : typ = kSAMLRequest ∨ typ = kSAMLResponse) (v : Str)
+    (rs : Option Str) (alg st : Str) : (emitted typ v rs alg st).get kSignature = some st := by
+  have h1 : ¬ typ = kSignature := by rcases h with h | h <;> subst h <;> decide
+  cases rs <;> simp [emitted, Dict.get, h1, kRelay_ne_kSig, kSigAlg_ne_kSig]
+
+theorem emitted_get_other {typ other : Str}
+    (h : (typ = kSAMLRequest ∧ other = kSAMLResponse) ∨ (typ = kSAMLResponse ∧ other = kSAMLRequest))
+    (v : Str) (rs : Option Str) (alg st : Str) : (emitted typ v rs alg st).get other = none := by
+  rcases h with ⟨h1, h2⟩ | ⟨h1, h2⟩ <;> subst h1 <;> subst h2 <;> cases rs <;>
+    simp [emitted, Dict.get, kReq_ne_kResp, kReq_ne_kResp.symm, kResp_ne_kRelay.symm, kReq_ne_kRelay.symm,
+      kReq_ne_kSigAlg.symm, kResp_ne_kSigAlg.symm, kReq_ne_kSig.symm, kResp_ne_kSig.symm]
+
+theorem emitted_view {typ : Str} (h : typ = kSAMLRequest ∨ typ = kSAMLResponse) (v : Str)
+    (rs : Option Str) (alg st : Str) : view (emitted typ v rs alg st) = some (typ, v) := by
+  unfold view
+  rcases h with h | h
+  · subst h
+    rw [emitted_get_typ]
+  · subst h
+    rw [emitted_get_other (Or.inr ⟨rfl, rfl⟩), emitted_get_typ]
+
+theorem args_octets (enc : Str → Str) {typ : Str} (h : typ = kSAMLRequest ∨ typ = kSAMLResponse)
+    (v rs alg : Str) :
+    signedString enc [typ, kRelayState, kSigAlg]
+        (((typ, v) :: if ¬rs = [] then [(kRelayState, rs)] else []) ++ [(kSigAlg, alg)])
+      = canonOctets enc typ v (rsOpt rs) alg := by
+  have h1 : ¬ typ = kRelayState := by rcases h with h | h <;> subst h <;> decide
+  have h2 : ¬ typ = kSigAlg := by rcases h with h | h <;> subst h <;> decide
+  by_cases hr : rs = []
+  · have e := signedString_std enc ([(typ, v)] ++ [(kSigAlg, alg)]) typ v alg
+      (by simp [Dict.get]) (by simp [Dict.get, h2])
+    have g : Dict.get ([(typ, v)] ++ [(kSigAlg, alg)]) kRelayState = none := by
+      simp [Dict.get, h1, kRelay_ne_kSigAlg.symm]
+    rw [g] at e
+    simpa [hr, rsOpt] using e
+  · have e := signedString_std enc ([(typ, v), (kRelayState, rs)] ++ [(kSigAlg, alg)]) typ v alg
+      (by simp [Dict.get]) (by simp [Dict.get, h2, kRelay_ne_kSigAlg])
+    have g : Dict.get ([(typ, v), (kRelayState, rs)] ++ [(kSigAlg, alg)]) kRelayState = some rs := by
+      simp [Dict.get, h1]
+    rw [g] at e
+    simpa [hr, rsOpt] using e
+
+theorem args_emitted (typ v rs alg st : Str) :
+    ((typ, v) :: if ¬rs = [] then [(kRelayState, rs)] else []) ++ [(kSigAlg, alg)] ++ [(kSignature, st)]
+      = emitted typ v (rsOpt rs) alg st := by
+  by_cases hr : rs = [] <;> simp [hr, rsOpt, emitted]
+
+omit [DecidableEq κ] in
+theorem redirectMessage_signed {T : Tables} (hT : TablesOk T) (C : Codec (Sig κ)) (key : κ) {typ : Str}
+    (htyp : typ = kSAMLRequest ∨ typ = kSAMLResponse) (v rs : Str) {alg : Str} (ha : alg ∈ T.allowedPack) :
+    ∃ dig, Dict.get T.signers alg = some dig ∧
+      redirectMessage T C key typ v rs true (some alg) =
+        .ok (emitted typ v (rsOpt rs) alg (C.b64e (.signed key dig (canonOctets C.enc typ v (rsOpt rs) alg))))
+          (some ⟨canonOctets C.enc typ v (rsOpt rs) alg, dig,
+            .signed key dig (canonOctets C.enc typ v (rsOpt rs) alg)⟩) := by
+  obtain ⟨hne, hsome⟩ := hT.supported alg ha
+  obtain ⟨dig, hdig⟩ := Option.isSome_iff_exists.mp hsome
+  refine ⟨dig, hdig, ?_⟩
+  unfold redirectMessage
+  have h0 : ¬ (typ ≠ kSAMLRequest ∧ typ ≠ kSAMLResponse ∧ typ ≠ kSAMLart) := by
+    rcases htyp with h | h <;> simp [h]
+  rw [if_neg h0]
+  simp only [Bool.not_true, Bool.false_eq_true, if_false, ha, not_true_eq_false, hne, ne_eq,
+    not_false_eq_true, if_true, hdig]
+  rcases htyp with h | h
+  · subst h
+    simp only [if_true, hT.reqS, stdReqOrder]
+    rw [args_octets C.enc (Or.inl rfl), args_emitted]
+  · subst h
+    simp only [kReq_ne_kResp.symm, if_false, if_true, hT.respS, stdRespOrder]
+    rw [args_octets C.enc (Or.inr rfl), args_emitted]
+
+/-! ### the executable `quotePlus` satisfies the encoder laws -/
+
+theorem unhex_hexDigit (n : Nat) : unhex (hexDigit n) = n := by
+  unfold unhex hexDigit
+  split <;> split <;> omega
+
+theorem hexDigit_ne_amp (n : Nat) : hexDigit n ≠ amp := by
+  unfold hexDigit amp; split <;> omega
+theorem hexDigit_ne_eqc (n : Nat) : hexDigit n ≠ eqc := by
+  unfold hexDigit eqc; split <;> omega
+
+theorem unreserved_bounds {b : Nat} (h : isUnreserved b = true) :
+    b ≠ 37 ∧ b ≠ 43 ∧ b ≠ amp ∧ b ≠ eqc := by
+  unfold isUnreserved at h
+  simp only [Bool.or_eq_true, Bool.and_eq_true, decide_eq_true_eq, beq_iff_eq] at h
+  unfold amp eqc
+  omega
+
+theorem unquotePlus_cons_other (c : Nat) (t : Str) (h1 : c ≠ 43) (h2 : c ≠ 37) :
+    unquotePlus (c :: t) = c :: unquotePlus t := by
+  conv => lhs; unfold unquotePlus
+  split
+  · contradiction
+  · rename_i heq; cases heq; omega
+  · rename_i heq; simp only [List.cons.injEq] at heq; omega
+  · rename_i heq; simp only [List.cons.injEq] at heq; obtain ⟨rfl, rfl⟩ := heq; rfl
+
+theorem unquote_quoteByte (b : Nat) (t : Str) : unquotePlus (quoteByte b ++ t) = b :: unquotePlus t := by
+  unfold quoteByte
+  split
+  next h =>
+    obtain ⟨h1, h2, _, _⟩ := unreserved_bounds h
+    simp only [List.cons_append, List.nil_append]
+    exact unquotePlus_cons_other b t h2 h1
+  next h =>
+    split
+    next h32 =>
+      subst h32
+      simp only [List.cons_append, List.nil_append]
+      rw [unquotePlus]
+    next h32 =>
+      simp only [List.cons_append, List.nil_append]
+      rw [unquotePlus]
+      rw [unhex_hexDigit, unhex_hexDigit]
+      congr 1
+      omega
+
+theorem unquote_quote (s : Str) : unquotePlus (quotePlus s) = s := by
+  induction s with
+  | nil => rfl
+  | cons b t ih =>
+    unfold quotePlus at ih ⊢
+    rw [List.flatMap_cons, unquote_quoteByte, ih]
+
+theorem quotePlus_inj (a b : Str) (h : quotePlus a = quotePlus b) : a = b := by
+  rw [← unquote_quote a, ← unquote_quote b, h]
+
+theorem quoteByte_no (b : Nat) : amp ∉ quoteByte b ∧ eqc ∉ quoteByte b := by
+  unfold quoteByte
+  split
+  next h =>
+    obtain ⟨_, _, h3, h4⟩ := unreserved_bounds h
+    simp only [List.mem_singleton]
+    exact ⟨fun e => h3 e.symm, fun e => h4 e.symm⟩
+  next =>
+    split
+    · simp [amp, eqc]
+    · simp only [List.mem_cons, List.not_mem_nil, or_false, not_or]
+      exact ⟨⟨by decide, (hexDigit_ne_amp _).symm, (hexDigit_ne_amp _).symm⟩,
+             ⟨by decide, (hexDigit_ne_eqc _).symm, (hexDigit_ne_eqc _).symm⟩⟩
+
+theorem quotePlus_no (s : Str) : amp ∉ quotePlus s ∧ eqc ∉ quotePlus s := by
+  unfold quotePlus
+  simp only [List.mem_flatMap, not_exists, not_and]
+  exact ⟨fun b _ => (quoteByte_no b).1, fun b _ => (quoteByte_no b).2⟩
+
+/-! ### specification predicates, receiver loop -/
+
+theorem authentic_iff (C : Codec (Sig κ)) (msg : Dict) (pk : Pub κ) (typ : Str) :
+    authentic C msg pk typ = true ↔
+      ∃ v alg sigText dig k, msg.get typ = some v ∧ msg.get kSigAlg = some alg ∧
+        msg.get kSignature = some sigText ∧ stdDigest alg = some dig ∧ pk = pub k ∧
+        C.b64d sigText = some (.signed k dig (canonOctets C.enc typ v (msg.get kRelayState) alg)) := by
+  unfold authentic
+  constructor
+  · intro h
+    split at h
+    next v alg st hv ha hs =>
+      split at h
+      next dig k d m hd hb =>
+        simp only [Bool.and_eq_true, decide_eq_true_eq] at h
+        obtain ⟨⟨h1, h2⟩, h3⟩ := h
+        exact ⟨v, alg, st, dig, k, hv, ha, hs, hd, h1, by rw [hb, h2, h3]⟩
+      next => cases h
+    next => cases h
+  · rintro ⟨v, alg, st, dig, k, hv, ha, hs, hd, hk, hb⟩
+    rw [hv, ha, hs]
+    simp only
+    rw [hd, hb]
+    simp [hk]
+
+theorem get_none_iff (l : List (Str × Str)) (a : Str) : Dict.get l a = none ↔ a ∉ l.map (·.1) := by
+  induction l with
+  | nil => simp [Dict.get]
+  | cons p t ih =>
+    obtain ⟨k, v⟩ := p
+    unfold Dict.get
+    by_cases h : k = a
+    · simp [h]
+    · simp only [h, if_false, ih, List.map_cons, List.mem_cons, not_or]
+      constructor
+      · intro h'; exact ⟨fun e => h e.symm, h'⟩
+      · intro h'; exact h'.2
+
+theorem stdDigest_none_iff (a : Str) : stdDigest a = none ↔ a ∉ stdAllowed :=
+  get_none_iff stdSigners a
+
+theorem anyVerified_map {α : Type} (f : α → VOut) (l : List α)
+    (hind : ∀ c c' e, f c = .error e → f c' ≠ .verified) :
+    anyVerified (l.map f) = some true ↔ ∃ c ∈ l, f c = .verified := by
+  induction l with
+  | nil => simp [anyVerified]
+  | cons c t ih =>
+    simp only [List.map_cons, List.mem_cons]
+    cases hc : f c with
+    | verified =>
+      simp only [anyVerified, true_iff]
+      exact ⟨c, Or.inl rfl, hc⟩
+    | error e =>
+      simp only [anyVerified]
+      constructor
+      · intro h; cases h
+      · rintro ⟨c', _, hc'⟩
+        exact absurd hc' (hind c c' e hc)
+    | notVerified =>
+      simp only [anyVerified, ih]
+      constructor
+      · rintro ⟨c', h1, h2⟩; exact ⟨c', Or.inr h1, h2⟩
+      · rintro ⟨c', h1 | h1, h2⟩
+        · subst h1; rw [hc] at h2; cases h2
+        · exact ⟨c', h1, h2⟩
+    | none =>
+      simp only [anyVerified, ih]
+      constructor
+      · rintro ⟨c', h1, h2⟩; exact ⟨c', Or.inr h1, h2⟩
+      · rintro ⟨c', h1 | h1, h2⟩
+        · subst h1; rw [hc] at h2; cases h2
+        · exact ⟨c', h1, h2⟩
+
+theorem verifyNF_error_indep (T : Tables) (C : Codec (Sig κ)) (own : κ) (msg : Dict)
+    (cert sigkey cert' sigkey' : Option (Pub κ)) (e : VErr)
+    (h : verifyNF T C own msg cert sigkey = .error e) :
+    verifyNF T C own msg cert' sigkey' ≠ .verified := by
+  unfold verifyNF at h ⊢
+  cases hA : msg.get kSigAlg with
+  | none => simp
+  | some alg =>
+    rw [hA] at h; simp only at h ⊢
+    cases hD : Dict.get T.signers alg with
+    | none => simp
+    | some dig =>
+      rw [hD] at h; simp only at h ⊢
+      cases hV : view msg with
+      | none => simp
+      | some tv =>
+        rw [hV] at h; simp only at h ⊢
+        cases hS : msg.get kSignature with
+        | none => simp
+        | some st =>
+          rw [hS] at h; simp only at h ⊢
+          cases hB : C.b64d st with
+          | none => simp
+          | some s =>
+            rw [hB] at h; simp only at h
+            split at h <;> cases h
+
+theorem loadsMsg_get_req (o a s : Str) (r : Option Str) : (loadsMsg o a s r).get kSAMLRequest = some o := by
+  simp [loadsMsg, Dict.get]
+theorem loadsMsg_get_resp (o a s : Str) (r : Option Str) : (loadsMsg o a s r).get kSAMLResponse = none := by
+  cases r <;> simp [loadsMsg, Dict.get, kReq_ne_kResp, kResp_ne_kSig.symm, kResp_ne_kSigAlg.symm, kResp_ne_kRelay.symm]
+theorem loadsMsg_get_sig (o a s : Str) (r : Option Str) : (loadsMsg o a s r).get kSignature = some s := by
+  simp [loadsMsg, Dict.get, kReq_ne_kSig]
+theorem loadsMsg_get_alg (o a s : Str) (r : Option Str) : (loadsMsg o a s r).get kSigAlg = some a := by
+  simp [loadsMsg, Dict.get, kReq_ne_kSigAlg, kSigAlg_ne_kSig.symm]
+theorem loadsMsg_get_relay (o a s : Str) (r : Option Str) : (loadsMsg o a s r).get kRelayState = r := by
+  cases r <;> simp [loadsMsg, Dict.get, kReq_ne_kRelay, kRelay_ne_kSig.symm, kRelay_ne_kSigAlg.symm]
+theorem loadsMsg_view (o a s : Str) (r : Option Str) : view (loadsMsg o a s r) = some (kSAMLRequest, o) := by
+  unfold view; rw [loadsMsg_get_req]
+
 end RedirectSig
